@@ -72,7 +72,7 @@ class Spec(_masterprop.MasterSpec):
 
 def _m1(quick):
     cfg = mastercfg.m1()
-    cfg['crash_in_handlers'] = not quick
+    cfg['crash_in_handlers'] = True
     cfg['monitors'] = [mastermon.mon_c09]
     cfg['allow_nocycle'] = True
     # non-initial start states (DESIGN 2.2): two placed instances, pressure
